@@ -4,7 +4,7 @@ property it was recorded for reports the violation again (a fixed entry in known
 import os, sys, json, subprocess, tempfile, re
 HERE = os.path.dirname(os.path.abspath(__file__)); VERIF = os.path.dirname(HERE)
 EXPECT = {  # subject prefix -> checks expected to fire when the fix is undone
-    'reverse sweep through sum over a tuple of axes': ['C03', 'C04'], 'init_tensor keeps the type of the point': ['C09'],
+    'refuse a constant array that does not broadcast into x': ['C02'], 'reverse sweep through sum over a tuple of axes': ['C03', 'C04'], 'init_tensor keeps the type of the point': ['C09'],
     'constant / UTPM builds': ['C02'], 'x ** r allocates': ['C02'], 'UTPM /= UTPM broadcasts': ['C02'], 'nthderiv.erf/erfi': ['C16'],
     'NumPy integer exponents': ['C01'], 'UTPM.outer allocates': ['C07'], 'UTPM.__setitem__ accepts': ['C13'], 'sum() of a scalar-shaped': ['C13'],
     'zeros(shape, dtype=UTPM)': ['C13'], 'diag follows numpy.diag': ['C13'], 'pullback of x ** n for negative': ['C03'],
